@@ -13,7 +13,7 @@ Definition hinv (s : hstate) : Prop := Forall (fun r => r = h_latest s + 1 /\ h_
 
 Lemma hstep_ok s e s' a : hinv s -> hstep s e = (s', a) -> hinv s' /\ Forall exact a.
 Proof.
-  unfold hinv. intros Hi H. destruct e as [r known|r|]; simpl in H.
+  unfold hinv. intros Hi H. destruct e as [r known|r| |r]; simpl in H.
   - destruct ((h_latest s + 1 =? r) && negb (h_latest s =? 0)) eqn:E; inversion H; subst; simpl.
     + apply andb_prop in E as [Ea Eb]. apply Z.eqb_eq in Ea. apply negb_true_iff in Eb. apply Z.eqb_neq in Eb.
       split; [|constructor]. apply Forall_app. split; [exact Hi|]. constructor; [split; lia|constructor].
@@ -26,6 +26,7 @@ Proof.
     + destruct (Z.eqb_spec (h_latest s) 0); [contradiction|]. simpl. exact I.
   - inversion H; subst; simpl. split; [constructor|].
     rewrite Forall_forall. intros x Hx. apply in_map_iff in Hx as [asked [<- _]]. exact I.
+  - inversion H; subst. split; [exact Hi|constructor].
 Qed.
 
 (* for EVERY history of requests, watch items (consecutive, skipping, repeated) and stream
